@@ -1001,7 +1001,7 @@ func RunOp(op []string, h Hooks) string {
 				// the sentinel itself cannot be told apart from the same value in the body's error: keep the
 				// marked form where the body can produce that value
 				if (cls == "canceled" && strings.HasPrefix(m["cancel"], "c")) ||
-					(cls == "norows" && strings.ContainsAny(stmts, "ro")) {
+					(cls == "norows" && strings.ContainsAny(stmts, "roA")) {
 					form = "i"
 				}
 			}
